@@ -12,14 +12,18 @@
 (*    field    <key>:<value> [# comment]   (key at column 0, value non-empty*)
 (*             after trimming, no '#'; braces only in a counter value of    *)
 (*             the form  prefix{b1,...,bn}  written on one line)            *)
-(*    copen    counter:<prefix>{b1,...,bk,     k >= 0  (list continues)     *)
-(*    cmid     b1,...,bk,                      k >= 1                       *)
-(*    cclose   b1,...,bk}                      k >= 1                       *)
+(*    copen    counter:<prefix>{b1,...,bk[,]   k >= 0  (list continues)     *)
+(*    cmid     [,]b1,...,bk[,]                 k >= 1                       *)
+(*    cclose   [,]b1,...,bk}                   k >= 0                       *)
 (*    junk     anything else                                                *)
+(* (lead / trail tell whether the piece starts / ends with a comma: "within *)
+(* bucket braces newlines are ignored", so the pieces of a list written     *)
+(* over several lines must join to  prefix{b1,...,bn}: exactly one comma    *)
+(* between two buckets, none after "{" or before "}".)                      *)
 (* Values are opaque strings (numeric fields: canonical decimal strings);   *)
 (* a counter value is [pre, bs]: bs = <<>> for a plain counter name `pre`,  *)
 (* else the counter expression  pre{bs[1],...,bs[n]}.                       *)
-EXTENDS Integers, Sequences, FiniteSets
+EXTENDS Integers, Sequences, FiniteSets, SequencesExt
 
 StrKeys == {"title", "description", "type", "program", "module", "version"}
 NumKeys == {"depth", "error"}
@@ -30,9 +34,15 @@ NoCounter == [pre |-> "", bs |-> <<>>]
 EmptyRec == [title |-> "", description |-> "", type |-> "", program |-> "", module |-> "",
              version |-> "", depth |-> "0", error |-> "0", issue |-> <<>>, counter |-> NoCounter]
 
-Line(k, key, val, bs) == [k |-> k, key |-> key, val |-> val, bs |-> bs]
+LineC(k, key, val, bs, lead, trail) == [k |-> k, key |-> key, val |-> val, bs |-> bs, lead |-> lead, trail |-> trail]
+Line(k, key, val, bs) == LineC(k, key, val, bs, FALSE, FALSE)
 
-NoAcc == [open |-> FALSE, pre |-> "", bs |-> <<>>]
+(* pend: the pieces read so far end with a comma *)
+NoAcc == [open |-> FALSE, pre |-> "", bs |-> <<>>, pend |-> FALSE]
+
+(* may a piece with buckets (lead comma or not) follow what has been read? *)
+Joins(acc, ln) == IF acc.bs = <<>> THEN ~ln.lead /\ ~acc.pend
+                  ELSE (ln.lead /\ ~acc.pend) \/ (~ln.lead /\ acc.pend)
 S0 == [ok |-> TRUE, recs |-> <<>>, cur |-> EmptyRec, set |-> {}, acc |-> NoAcc]
 
 Bad(s) == [s EXCEPT !.ok = FALSE]
@@ -57,18 +67,20 @@ Step(s, ln) ==
                      THEN [s EXCEPT !.cur[ln.key] = ln.val, !.set = @ \cup {ln.key}]
                 ELSE Bad(s)
            [] ln.k = "copen" ->
-                IF s.acc.open \/ "counter" \in s.set THEN Bad(s)
-                ELSE [s EXCEPT !.acc = [open |-> TRUE, pre |-> ln.val, bs |-> ln.bs]]
+                IF s.acc.open \/ "counter" \in s.set \/ ln.lead \/ (ln.bs = <<>> /\ ln.trail) THEN Bad(s)
+                ELSE [s EXCEPT !.acc = [open |-> TRUE, pre |-> ln.val, bs |-> ln.bs, pend |-> ln.trail]]
            [] ln.k = "cmid" ->
-                IF ~s.acc.open THEN Bad(s) ELSE [s EXCEPT !.acc.bs = @ \o ln.bs]
+                IF ~s.acc.open \/ ln.bs = <<>> \/ ~Joins(s.acc, ln) THEN Bad(s)
+                ELSE [s EXCEPT !.acc.bs = @ \o ln.bs, !.acc.pend = ln.trail]
            [] ln.k = "cclose" ->                                \* newlines inside the braces are ignored
                 IF ~s.acc.open THEN Bad(s)
+                ELSE IF ln.bs = <<>> /\ (ln.lead \/ s.acc.pend \/ s.acc.bs = <<>>) THEN Bad(s)
+                ELSE IF ln.bs # <<>> /\ ~Joins(s.acc, ln) THEN Bad(s)
                 ELSE [s EXCEPT !.cur.counter = [pre |-> s.acc.pre, bs |-> s.acc.bs \o ln.bs],
                                !.set = @ \cup {"counter"}, !.acc = NoAcc]
            [] OTHER -> Bad(s)
 
-RECURSIVE Fold(_, _)
-Fold(s, lines) == IF lines = <<>> THEN s ELSE Fold(Step(s, Head(lines)), Tail(lines))
+Fold(s, lines) == FoldLeft(Step, s, lines)      \* Step applied line by line
 
 (* the meaning of a text: its records, or "unspecified" when the text is    *)
 (* not a rendering of records in the documented syntax                      *)
@@ -85,14 +97,14 @@ ParseLines(lines) == Finish(Fold(S0, lines))
 (*                              (Go versions for cmd/..., semver otherwise) *)
 (* and the versions known for a program to a set of ranks.                  *)
 Rng(s) == {s[i] : i \in 1..Len(s)}
-Min(S) == CHOOSE x \in S : \A y \in S : x <= y
+MinOf(S) == CHOOSE x \in S : \A y \in S : x <= y
 
 ProgsOf(recs) == {recs[i].prog : i \in 1..Len(recs)}
 MinsOf(recs, p) == {recs[i].min : i \in {j \in 1..Len(recs) : recs[j].prog = p}}
 
 (* the smallest minimum version among the program's records; a record       *)
 (* without version applies to all versions                                  *)
-MinOfMins(recs, p) == IF 0 \in MinsOf(recs, p) THEN 0 ELSE Min(MinsOf(recs, p))
+MinOfMins(recs, p) == IF 0 \in MinsOf(recs, p) THEN 0 ELSE MinOf(MinsOf(recs, p))
 
 (* every known version not older than that                                  *)
 Required(recs, p, known) == {v \in known : MinOfMins(recs, p) = 0 \/ v >= MinOfMins(recs, p)}
